@@ -29,7 +29,7 @@ TIERS = {
     "thorough": {"runs": 8000, "batch": 1, "timeout_s": 1200, "cycles": 7, "shrink_budget": 80},
 }
 RULE = ("History = (functional x method x user-object kind x function kind x usage in {forward, forward+backward, "
-        "forward+graph-recording backward+second backward} x persistent-or-rebuilt user object x cycle length 1-3 x "
+        "forward+graph-recording backward+second backward} x persistent-or-rebuilt user object x debug mode on/off x method tuning knobs x LAPACK failing once per call x cycle length 1-3 x "
         "release order), repeated for 5 (quick) cycles with the cyclic GC disabled; census of live torch.Tensor "
         "objects (gc.get_objects) whenever the result pool is empty. Violation iff the tensor count strictly "
         "increases on each of three consecutive cycles after the warm-up cycle. A case is non-trivial iff the call "
@@ -111,6 +111,8 @@ def draw_history(cs, cfg):
     sc["rgb"] = not cs.bool("b_nograd", 1, 6)
     sc["rgs"] = cs.bool("s_grad", 1, 2)
     sc["debug0"] = False
+    # the process-wide debug mode is part of the configuration: one history in six runs with it on
+    sc["debug_on"] = cs.bool("debug_on", 1, 6)
     if sc["family"] == 2:
         sc["F"] = {"F": cs.choice(EXTRA_F, "F"), "method": cs.choice(["cspline", "linear"], "im")}
     else:
@@ -222,9 +224,11 @@ def run(cs, cfg):
     F = sc["F"]
     label = (F["F"], str(F.get("method", F.get("product", F.get("limits", "")))))
     kind = C10.kind_label(sc) if sc["family"] != 2 else "grid"
-    decoded = {"functional": label, "kind": kind, "fkind": sc["fkind"], "usage": sc["usage"],
+    decoded = {"functional": label, "kind": kind, "fkind": sc["fkind"], "usage": sc["usage"], "debug_mode": sc.get("debug_on"),
                "persistent_object": sc["persist"], "cycle_len": sc["cycle_len"], "release_order": sc["release"],
                "n": sc["n"]}
+    from xitorch.debug.modes import set_debug_mode
+    set_debug_mode(bool(sc.get("debug_on")))
     was_enabled = gc.isenabled()
     gc.collect()
     gc.disable()
@@ -277,7 +281,7 @@ def run(cs, cfg):
             new = describe_new(idsets[1])
             per_call = min(x for x in post if x > 0) / float(sc["cycle_len"])
             viol.append({"sig": {"inv": "tensor_growth", "functional": label[0], "usage": sc["usage"],
-                                 "adaptive": str(label[1] in ("rk23", "rk45"))},
+                                 "adaptive": str(label[1] in ("rk23", "rk45")), "debug": str(bool(sc.get("debug_on")))},
                          "detail": "live tensor count grows every cycle with the cyclic GC disabled: counts=%s "
                                    "(~%.1f tensors per call) functional=%s kind=%s fkind=%s usage=%s persistent=%s; "
                                    "surviving tensors by kind: %s" %
@@ -305,5 +309,8 @@ def run(cs, cfg):
         cnt("histories_with_cyclic_garbage")
     if was_enabled:
         gc.enable()
+    set_debug_mode(False)
+    if sc.get("debug_on"):
+        cnt("reach.debug_mode_on")
     return {"violations": viol, "stats": stats, "cases": cases, "decoded": decoded,
             "digest": SIM.digest(), "evals": 1, "events": SIM.seq}
